@@ -153,12 +153,16 @@ def Op.derives : Op → Bool
 theorem good_opProg_derive (F : Facts15) [DeepCopy F] (hF : F.mandRule = .copies) (fuel : Nat) (op : Op) (hop : op.derives = true)
     (n na : Nat) : Good n na [] (opProg F fuel op) (fun r => ∀ id, r = some id → n ≤ id) := by
   cases op with
-  | customize src kw ca caa prot =>
+  | customize src kw ca caa prot nx sa =>
     simp only [opProg]
     refine Good.bind (Good.getCls _) (fun sc _ => ?_)
     refine Good.bind (good_protMerge F prot kw) (fun kwE _ => ?_)
     split
-    · exact Good.map _ (good_custComplex _ _ _ _ _ _) (fun a ha id e => by cases e; exact ha)
+    · split
+      · split
+        · exact Good.map _ (good_arraySA _ _ _ _ _ _ _) (fun a ha id e => by cases e; exact ha)
+        · exact Good.map _ (good_custComplex _ _ _ _ _ _) (fun a ha id e => by cases e; exact ha)
+      · exact Good.map _ (good_custComplex _ _ _ _ _ _) (fun a ha id e => by cases e; exact ha)
     · exact Good.map _ (good_customizeAny _ _ _ _) (fun a ha id e => by cases e; exact ha)
   | array src member kw flat iter =>
     exact Good.map _ (good_arrayOp _ _ _ _ _ _ _) (fun a ha id e => by cases e; exact ha)
